@@ -609,16 +609,29 @@ fn clone_own_slot(node: &Node, j: usize) {
     let certain_dead = st != St::Alive;
     if certain_dead || predicted_dead {
         label(lab::DEAD_CLONE);
-        label(if st == St::Dying && !predicted_dead { lab::DEAD_CLONE_ZERO } else { lab::DEAD_CLONE_UNINIT });
+        label(if st == St::Alive { lab::DEAD_CLONE_ZERO } else { lab::DEAD_CLONE_UNINIT });
         let sh = shared();
         exec::set_msg(&format!("clone of a handle to destroyed object {} (state {:?}) from the destructor of {}", t, st, node.id.get()));
-        if certain_dead {
-            sh.expect_abort = 1;
-        }
+        sh.expect_abort = 1;
     }
     let c = {
         let s = node.slots.borrow();
-        lib(|| Rc::clone(&s[j].h))
+        if certain_dead || predicted_dead {
+            // the property demands process termination, not an unwinding panic
+            match catch_unwind(AssertUnwindSafe(|| lib(|| Rc::clone(&s[j].h)))) {
+                Ok(c) => c,
+                Err(e) => {
+                    std::mem::forget(e);
+                    shared().after_abort = 1;
+                    violate(
+                        View::Abort,
+                        &format!("cloning a handle to destroyed object {} panicked ({}) instead of terminating the process", t, take_panic_loc()),
+                    );
+                }
+            }
+        } else {
+            lib(|| Rc::clone(&s[j].h))
+        }
     };
     if certain_dead {
         shared().after_abort = 1;
@@ -626,6 +639,7 @@ fn clone_own_slot(node: &Node, j: usize) {
         violate(View::Abort, &format!("cloning a handle to already destroyed object {} returned normally instead of aborting", t));
     }
     if predicted_dead {
+        shared().expect_abort = 0;
         // decided when the enclosing teardown finishes
         let mut m = wd.model.borrow_mut();
         if let Some(i) = m.stack.iter().position(|b| b.obligation.contains(&t) && !b.vchildren.is_empty()) {
